@@ -101,6 +101,48 @@ def _literal_twin(rng, prob):
     return q
 
 
+def _structure_twin(rng, prob):
+    """The same tensor names at the same positions with the same formats, but some operators and
+    some index lists re-drawn: requests that share every name / id / position and differ in
+    structure - what an order-insensitive or name-keyed cache inside the generator conflates."""
+    import re
+
+    a = prob["assignment"]
+    lhs, rhs = a.split("=", 1)
+    all_idx = sorted({x.strip() for m in re.finditer(r"[A-Za-z][A-Za-z0-9]*\(([^)]*)\)", a)
+                      for x in m.group(1).split(",") if x.strip()})
+    changed = False
+
+    def mention(m):
+        nonlocal changed
+        idx = [x.strip() for x in m.group(2).split(",") if x.strip()]
+        if idx and rng.random() < 0.35:
+            others = [x for x in all_idx if x not in idx]
+            if others:
+                idx[rng.randrange(len(idx))] = rng.choice(others)
+                changed = True
+            elif len(idx) > 1:
+                rng.shuffle(idx)
+                changed = True
+        return f"{m.group(1)}({','.join(idx)})"
+
+    def operator(m):
+        nonlocal changed
+        if rng.random() < 0.5:
+            new = rng.choice([o for o in "*+-" if o != m.group(1)])
+            changed = True
+            return f" {new} "
+        return m.group(0)
+
+    rhs2 = re.sub(r"([A-Za-z][A-Za-z0-9]*)\(([^)]*)\)", mention, rhs)
+    rhs2 = re.sub(r" ([*+-]) ", operator, rhs2)
+    if not changed or rhs2 == rhs:
+        return None
+    q = problem_from_text(lhs + "=" + rhs2, dict(_canon_formats(prob)))
+    q["target_name"] = prob.get("target_name", "A")
+    return q
+
+
 def _operator_twin(rng, prob):
     import re
 
@@ -127,7 +169,7 @@ def gen_plan(seed, cfg):
     # generation costs milliseconds and an interpreter start costs a second, so one pair of
     # interpreters can try five times as many families as a mixed run.
     wide = rng.random() < 0.4
-    npool = rng.randint(10, 16) if wide else rng.randint(2, 4)
+    npool = rng.randint(6, 10) if wide else rng.randint(2, 4)
     for _ in range(npool):
         if rng.random() < 0.5:
             a, fm = rng.choice(CATALOGUE)
@@ -153,6 +195,10 @@ def gen_plan(seed, cfg):
         otw = _operator_twin(rng, prob)
         if otw is not None and rng.random() < 0.5:
             pool.append(otw)
+        for _ in range(rng.randint(1, 3) if wide else (1 if rng.random() < 0.5 else 0)):
+            stw = _structure_twin(rng, prob)
+            if stw is not None:
+                pool.append(stw)
         # near-duplicates that must NOT share a cached kernel
         r = rng.random()
         if r < 0.3:
